@@ -33,6 +33,13 @@ pub fn run(ctx: &Ctx, out: &mut Out) {
             .collect();
         jobs.push((prog.render(), goals));
     }
+    // blanket impls over marker traits: positive cycles through several tables sharing one unknown
+    let nbl = ctx.budget(250, 6000);
+    for i in 0..nbl {
+        let mut rng = ctx.rng(5, i as u64);
+        let (text, ex, _gr) = blanket_program(&mut rng);
+        jobs.push((text, ex));
+    }
     for (text, goals) in jobs {
         let (_d, program) = match lower_program(&text, chalk_integration::SolverChoice::slg_default()) {
             Ok(x) => x,
